@@ -22,8 +22,8 @@ def blankLF : Bytes := [10, 10]
 def EndsWithEmptyLine (s : Bytes) : Prop := (∃ b, s = b ++ blankCRLF) ∨ (∃ b, s = b ++ blankLF)
 
 /-- `secs` is a division of the manifest `m` into sections: consecutive, covering every byte, each ending with
-    its empty line.  (Minimality – the empty line occurs nowhere else in a section – is the statement
-    `jar_sections_first_blank_line_full`, not proved.) -/
+    its empty line.  (Minimality – the empty line occurs nowhere else in a section – is
+    `Props.C05.jar_sections_minimal` / `jar_sections_first_blank_line`.) -/
 structure Sectioning (m : Bytes) (secs : List Bytes) : Prop where
   whole : secs.flatten = m
   ends : ∀ s ∈ secs, EndsWithEmptyLine s
